@@ -1,14 +1,25 @@
 """C02 - postconditions gate every normal return; results and exceptions pass unchanged."""
 import checker_cluster as K
+import elab_cluster as E
 import gen_checker as G
 
 PROP = "C02"
-CONE = K.MODEL_FILES + ["Gen/Generated.v", "Proofs/SkelPinChecker.v", "Proofs/CheckerFrame.v", "Proofs/CheckerProps.v", "Props/C02.v"]
+CONE = sorted(set(K.MODEL_FILES + E.MODEL_FILES + ["Gen/Generated.v", "Proofs/SkelPinChecker.v", "Proofs/CheckerFrame.v", "Proofs/CheckerProps.v", "Props/C02.v"]))
+RULE_E = ("histories of definitions as for C04 (functions with decorator stacks incl. foreign functools.wraps decorators, "
+          "DBC hierarchies with overriding members): the lists carried by the wrapper whose code evaluates the contracts - not the "
+          "one find_checker hands out - are the declared effective contracts (spec_C04).")
 RULE = ("as C01, with bodies returning identity-tagged objects, None, 0 or raising exceptions of five classes "
         "(Exception, BaseException-only, KeyboardInterrupt, GeneratorExit, CancelledError); postconditions see "
         "result / OLD / the post-body store; seeded.")
 
 
 def run(tier, replay=None):
-    return K.run(PROP, tier, CONE, "Props/C02.v", ["spec_C02"], lambda rng, n: G.gen_many(rng, n),
-                 1400, 30000, RULE, replay=replay)
+    out, build, problems = K.begin(PROP, tier, CONE, "Props/C02.v")
+    is_elab_replay = bool(replay) and "ops" in __import__("json").load(open(replay)).get("case", {})
+    if not replay or not is_elab_replay:
+        K.run_into(out, build, problems, PROP, tier, ["spec_C02"], lambda rng, n: G.gen_many(rng, n), 1400, 30000, RULE,
+                   replay=replay)
+    if not replay or is_elab_replay:
+        E.run(out, build, problems, PROP, tier, ["spec_C04"], E.default_gen, 300, 8000, RULE_E, replay=replay,
+              known={"spec_C04": "kf_C04_accept_all"})
+    return out.finish()
